@@ -103,7 +103,10 @@ CANON = [
     ("spartan-nonascii", "hôst /docs 0"), ("spartan-negative", "h /docs -1"),
     ("gopherp-plus", "/docs\t+"), ("gopherp-bang", "/docs\t!"), ("gopherp-dollar", "/docs\t$"),
     ("gopherp-search-plus", "/docs\tquery\t+"), ("gopherp-view", "/small.txt\t+text/plain"),
-    ("gopher-search", "/docs\tquery"), ("gopher-empty-field", "/docs\t"), ("gopher-four-fields", "/docs\ta\tb\tc"),
+    ("gopher-search", "/docs\tquery"), ("gopher-search-words-num", "/docs\tfind me 3"),
+    ("gopher-search-num", "/veronica query\t2024"), ("gopherp-dollar-space-num", "/\t$ 1"),
+    ("gopher-tab-two-words-num", "/\tpygopherd 0"), ("spartan-double-space", "localhost  / 0"),
+    ("spartan-tab-separated", "h\t/docs\t0"), ("gopher-empty-field", "/docs\t"), ("gopher-four-fields", "/docs\ta\tb\tc"),
     ("gopher-3-fields-plain", "/docs\t+x\tmore"), ("gopher-bang-x", "/docs\t!x"),
     ("gopher-plain", "/docs"), ("gopher-empty", ""), ("gopher-slash", "/"),
     ("gemini", "gemini://sim.example.org/docs"), ("gemini-root", "gemini://h/"), ("gemini-upper", "GEMINI://h/docs"),
